@@ -30,6 +30,7 @@ def draw_config(rng):
         "clock": {"kind": rng.choice(CLOCK_KINDS), "start": 1.7e9, "salt": rng.randrange(1, 1 << 30)},
         "stdout": {"kind": rng.choice(STDOUT_KINDS)},
         "logger": {"kind": rng.choice(["default", "default", "error_level", "raising_handler", "debug_level"])},
+        "warnings": {"kind": "error" if rng.random() < 0.15 else "always"},
     }
 
 
@@ -234,7 +235,7 @@ class OptEngineBase:
         # config to defaults
         from .world import DEFAULT_CONFIG
 
-        for key in ("clock", "stdout", "logger", "platform"):
+        for key in ("clock", "stdout", "logger", "platform", "warnings"):
             if case.get("config", {}).get(key) and case["config"][key] != DEFAULT_CONFIG[key]:
                 c = copy.deepcopy(case)
                 c["config"][key] = copy.deepcopy(DEFAULT_CONFIG[key])
